@@ -46,6 +46,10 @@ var c16LineFaults = map[string]string{
 	"missing-include-absolute-path":      "##!> include <<W>>/crs/regex-assembly/include/nosuchfile",
 	"missing-exclude-absolute-path":      "##!> include-except inc1 <<W>>/crs/regex-assembly/exclude/nosuchexclude.ra",
 	"missing-exclude-after-all-excluded": "##!> include-except onlyone ex-all nosuchexclude",
+	"include-without-name":               "##!> include",
+	"include-except-without-name":        "##!> include-except",
+	"include-with-two-names":             "##!> include inc1 inc2",
+	"define-without-value":               "##!> define lonely",
 	"unparsable-entry":                   "a(b[",
 	"unparsable-prefix":                  "##!^ [z-a]",
 	"unparsable-suffix":                  "##!$ x{2,1}",
